@@ -481,7 +481,16 @@ fn update_weights(
         config.epoch_manager_addr.to_string(),
     )?;
 
-    let weight = calculate_weight(lp_asset, unlocking_duration)?;
+    let mut weight = calculate_weight(lp_asset, unlocking_duration)?;
+
+    let (_, mut address_lp_weight) =
+        get_latest_address_weight(deps.storage, receiver, &lp_asset.denom)?;
+
+    if !fill {
+        // never take more weight away than the address holds, as the same amount is deducted
+        // from the contract's total, which must keep covering the weights of everyone else
+        weight = weight.min(address_lp_weight);
+    }
 
     let (_, mut lp_weight) =
         get_latest_address_weight(deps.storage, &env.contract.address, &lp_asset.denom)?;
@@ -506,9 +515,6 @@ fn update_weights(
     )?;
 
     // update the user's weight for this LP
-    let (_, mut address_lp_weight) =
-        get_latest_address_weight(deps.storage, receiver, &lp_asset.denom)?;
-
     if fill {
         // filling position
         address_lp_weight = address_lp_weight.checked_add(weight)?;
